@@ -142,6 +142,7 @@ int main(int argc, char **argv)
           if (g_mode == 'r') yyrestart(f); else yyin = f; }
     }
     fflush(stdout);
+    yylex_destroy();
     return 0;
 }
 """,
@@ -175,10 +176,12 @@ int main(int argc, char **argv)
 }
 """,
     'cxx': COMMON_MAIN + r"""
+static std::ifstream *g_streams[256]; static int g_nstreams;
+static std::ifstream *open_stream(const char *p) { std::ifstream *f = new std::ifstream(p, std::ios::binary); if (g_nstreams < 256) g_streams[g_nstreams++] = f; return f; }
 int yyFlexLexer::yywrap()
 {
     int k = next_file();
-    if (k >= 0) { std::ifstream *f = new std::ifstream(g_argv[k], std::ios::binary); if (!*f) exit(2); switch_streams(f, 0); return 0; }
+    if (k >= 0) { std::ifstream *f = open_stream(g_argv[k]); if (!*f) exit(2); switch_streams(f, 0); return 0; }
     return 1;
 }
 int main(int argc, char **argv)
@@ -186,7 +189,7 @@ int main(int argc, char **argv)
     int v, k;
     g_argc = argc; g_argv = argv; g_next = 2; g_mode = argv[1][1];
     k = next_file();
-    std::ifstream *in = new std::ifstream(k >= 0 ? argv[k] : "/dev/null", std::ios::binary);
+    std::ifstream *in = open_stream(k >= 0 ? argv[k] : "/dev/null");
     if (!*in) return 2;
     yyFlexLexer lexer(in, 0);
     for (;;) {
@@ -194,7 +197,7 @@ int main(int argc, char **argv)
         printf("R 0\n");
         if (!next_session()) break;
         k = next_file();
-        std::ifstream *f = new std::ifstream(k >= 0 ? argv[k] : "/dev/null", std::ios::binary); if (!*f) return 2;
+        std::ifstream *f = open_stream(k >= 0 ? argv[k] : "/dev/null"); if (!*f) return 2;
         if (g_mode == 'r') lexer.yyrestart(f); else lexer.switch_streams(f, 0);
     }
     fflush(stdout);
@@ -360,9 +363,11 @@ def eval_stream_case(flex, workdir, case):
                 with open(pth, "wb") as f:
                     f.write(bytes(w))
                 args.append(pth)
-        rc, out, err = run([os.path.join(workdir, "s.exe")] + args, timeout=20)
+        rc, out, err = run([os.path.join(workdir, "s.exe")] + args, timeout=20, env=case.get('env'))
         evs = parse_events(out, bol_obs)
         errs = err.decode(errors="replace")
+        if case.get('env'):
+            res.setdefault('san_stderr', []).append(errs[:4000])
         for msg, code in FATAL_MSGS:
             if msg in errs:
                 evs.append(('F', code))
@@ -397,6 +402,10 @@ def eval_stream_case(flex, workdir, case):
             k = 0
             while k < len(revs) and k < len(mevs) and revs[k] == mevs[k]:
                 k += 1
+            res.setdefault('traces', []).append({'real': [list(e) for e in revs[:k + 4]], 'model': [list(e) for e in mevs[:k + 4]]})
+            res.setdefault('first_diff', []).append({'k': k, 'real': list(revs[k]) if k < len(revs) else None,
+                                                     'model': list(mevs[k]) if k < len(mevs) else None,
+                                                     'nsources': max(len(sess) for sess in rn['sessions'])})
             res['problems'].append(('event-mismatch', "sessions=%s mode=%s rc=%s at event %d: real=%s model=%s stderr=%s" % (
                 [[bytes(w).hex() for w in sess] for sess in rn['sessions']], rn.get('mode'), rrc, k, revs[k:k + 3], mevs[k:k + 3], rerr[:100])))
     return res
@@ -417,7 +426,7 @@ def gen_stream_case(rng, cid, focus, backend='nr', flex_opts=None, lineno=None, 
         for r in prog['rules']:
             if rng.chance(40):
                 r['scs'] = sorted(set(rng.rng(1, nsc) for _ in range(rng.rng(1, 2))))
-    uses_more = 'edit' in focus and rng.chance(35)
+    uses_more = 'edit' in focus and (rng.chance(35) or 'more' in focus)
     acts = {}
     for i, r in enumerate(prog['rules']):
         ml = patgen.minlen(r['head'])
